@@ -390,6 +390,45 @@ def setters(facts):
     return out
 
 
+def encapsulation(facts, rule, outer, inner):
+    """The batteries-included type wraps the generic one so that its own checks cannot be stepped around: the wrapped value is not
+    reachable from outside - its field is not public and no public function (inherent, trait implementation such as Deref / AsMut /
+    From, or free) whose signature involves the wrapper also involves the wrapped type (returned, lent to a callback, converted)."""
+    out = []
+    o_adt = [a for p, a in facts.adts.items() if p.split("::")[-1] == outer]
+    if len(o_adt) != 1:
+        return [Finding(rule, False, outer, "anchor missing", "expected one type %s, found %d" % (outer, len(o_adt)))]
+    a = o_adt[0]
+    wrapped = [f for vr in a["variants"] for f in vr["fields"] if re.search(r"\b%s<" % inner, f["ty"])]
+    if not wrapped:
+        return [Finding(rule, False, a["path"], "anchor missing", "%s has no field of type %s" % (outer, inner), a.get("file"), a.get("line"))]
+    for f in wrapped:
+        ok = f["vis"] != "pub"
+        out.append(Finding(rule, ok, a["path"], "field %s" % f["name"], "the wrapped %s must not be a public field of %s (its operations bypass the wrapper's checks)" % (inner, outer), a.get("file"), a.get("line"),
+                           "%s.%s (%s) is private to %s" % (outer, f["name"], inner, f["vis"].replace("in ", ""))))
+    n = 0
+    bad = []
+    for bid, b in sorted(facts.bodies.items()):
+        sig = b.get("sig")
+        if not sig or b.get("vis") != "pub" or b.get("kind") not in ("Fn", "AssocFn"):
+            continue
+        # the declared signature may name the wrapped type through a projection (<Wrapper as Deref>::Target): the types of the MIR
+        # return place and arguments are normalised
+        ltys = " ".join(l.get("ty", "") for l in (b.get("locals") or [])[:1 + (b.get("arg_count") or 0)])
+        whole = sig + " " + ltys + " " + (b.get("impl_self") or "") + " " + " ".join(b.get("predicates") or [])
+        if not re.search(r"\b%s<" % outer, whole):
+            continue
+        n += 1
+        if re.search(r"\b%s<" % inner, whole):
+            bad.append(b)
+    for b in bad:
+        out.append(Finding(rule, False, b["id"], "public function exposing the wrapped %s" % inner,
+                           "a public function involving %s must not hand out, lend or convert to the wrapped %s: its operations (building / parsing, claim and validator tables) bypass the checks of %s; signature %s" % (outer, inner, outer, b["sig"][:200]),
+                           b.get("file"), b.get("line")))
+    out.append(Finding(rule, not bad, a["path"], "public surface of %s" % outer, "see above", a.get("file"), a.get("line"), "%d public functions involve %s; none involves the wrapped %s" % (n, outer, inner)))
+    return out
+
+
 _memo = {}
 
 
